@@ -11,10 +11,12 @@ import (
 	"fmt"
 	"io"
 	"net"
+	"os"
 	"runtime"
 	"sort"
 	"strings"
 	"sync"
+	"sync/atomic"
 	"testing"
 	"testing/synctest"
 	"time"
@@ -28,6 +30,7 @@ import (
 	"google.golang.org/grpc/status"
 	"pgregory.net/rapid"
 
+	"github.com/temporalio/s2s-proxy/config"
 	"github.com/temporalio/s2s-proxy/metrics"
 	"github.com/temporalio/s2s-proxy/transport/mux"
 	"github.com/temporalio/s2s-proxy/transport/mux/session"
@@ -816,4 +819,156 @@ func TestVF_C11_DialOverlap(t *testing.T) {
 			st.Sample(map[string]any{"variant": v.name})
 		}
 	}
+}
+
+// ---- a peer that vanishes silently (real establisher provider over loopback TCP, real time)
+
+type c11FreezeConn struct {
+	net.Conn
+	frozen   atomic.Bool
+	unfreeze chan struct{}
+}
+
+func (c *c11FreezeConn) Read(p []byte) (int, error) {
+	if c.frozen.Load() {
+		<-c.unfreeze
+		return 0, io.EOF
+	}
+	n, err := c.Conn.Read(p)
+	if c.frozen.Load() {
+		<-c.unfreeze
+		return 0, io.EOF
+	}
+	return n, err
+}
+
+func (c *c11FreezeConn) Write(p []byte) (int, error) {
+	if c.frozen.Load() {
+		return len(p), nil
+	}
+	return c.Conn.Write(p)
+}
+
+// TestVF_C11_SilentPeer: the pool as NewGRPCMuxManager assembles it for the establishing role (production yamux
+// settings) feeds a real MultiClientConn; two sessions to a peer that serves a gRPC health service on each. One peer
+// connection then stops answering without closing (no FIN, no RST). "Calls fail over to surviving sessions when one
+// dies": the dead session has to be noticed and dropped from the dialable endpoints, and calls keep succeeding over the
+// survivor. Bounds are generous (yamux keep-alive needs 30 s + 10 s): 150 s.
+func TestVF_C11_SilentPeer(t *testing.T) {
+	const part = "silentpeer"
+	if rp := vfshared.ReplayPart(); rp != "" && rp != part {
+		t.Skip()
+	}
+	st := vfshared.NewStats("C11", part, "real time: NewGRPCMuxManager (establishing role, production yamux settings) + real MultiClientConn, 2 sessions over loopback TCP to a peer serving gRPC health on each; one peer connection stops answering but stays open; oracle: within 150 s the dead session is no longer a dialable endpoint (and has been re-dialled), and a call made then is served by a live session; non-trivial = the one scenario")
+	defer st.Flush()
+	ctx, cancel := context.WithCancel(context.Background())
+	defer cancel()
+	ln, err := net.Listen("tcp", "127.0.0.1:0")
+	if err != nil {
+		t.Fatalf("HARNESS: %v", err)
+	}
+	defer ln.Close()
+	var mu sync.Mutex
+	var conns []*c11FreezeConn
+	nextTag := 0
+	go func() {
+		for {
+			cn, err := ln.Accept()
+			if err != nil {
+				return
+			}
+			fz := &c11FreezeConn{Conn: cn, unfreeze: make(chan struct{})}
+			cfg := yamux.DefaultConfig()
+			cfg.LogOutput = io.Discard
+			cfg.EnableKeepAlive = false
+			s, err := yamux.Server(fz, cfg)
+			if err != nil {
+				_ = cn.Close()
+				continue
+			}
+			mu.Lock()
+			conns = append(conns, fz)
+			tag := fmt.Sprintf("s%d", nextTag)
+			nextTag++
+			mu.Unlock()
+			srv := grpc.NewServer()
+			healthpb.RegisterHealthServer(srv, &c11Health{tag: tag})
+			go func() { _ = srv.Serve(s) }()
+		}
+	}()
+	mcc, err := NewMultiClientConn(ctx, "vf-c11s", MakeDialOptions(nil, metrics.GetGRPCClientMetrics("outbound"))...)
+	if err != nil {
+		t.Fatalf("HARNESS: %v", err)
+	}
+	cd := config.ClusterDefinition{ConnectionType: config.ConnTypeMuxClient, MuxCount: 2, MuxAddressInfo: config.TCPTLSInfo{ConnectionString: ln.Addr().String()}}
+	mgr, err := mux.NewGRPCMuxManager(ctx, "vf-c11s", cd, mcc, grpc.NewServer(), log.NewNoopLogger())
+	if err != nil {
+		t.Fatalf("HARNESS: %v", err)
+	}
+	go mgr.Start()
+	waitSessions := func(n int, d time.Duration) bool {
+		deadline := time.Now().Add(d)
+		for time.Now().Before(deadline) {
+			if len(mgr.GetMuxConnections()) == n {
+				return true
+			}
+			time.Sleep(50 * time.Millisecond)
+		}
+		return false
+	}
+	if !waitSessions(2, 30*time.Second) {
+		t.Fatalf("HARNESS: the pool of 2 never filled")
+	}
+	call := func() (string, error) {
+		var hdr metadata.MD
+		cctx, ccancel := context.WithTimeout(context.Background(), 5*time.Second)
+		defer ccancel()
+		_, err := healthpb.NewHealthClient(mcc).Check(cctx, &healthpb.HealthCheckRequest{}, grpc.Header(&hdr))
+		by := ""
+		if v := hdr.Get("x-vf-session"); len(v) > 0 {
+			by = v[0]
+		}
+		return by, err
+	}
+	if _, err := call(); err != nil {
+		t.Fatalf("HARNESS: call over the healthy pool failed: %v", err)
+	}
+	// the first peer connection vanishes
+	mu.Lock()
+	dead := conns[0]
+	mu.Unlock()
+	dead.frozen.Store(true)
+	fail := func(msg string) {
+		c := map[string]any{"scenario": "one of two peers stops answering, connection stays open"}
+		p := vfshared.WriteReplay("C11", part, c)
+		st.Violation(p, msg)
+		t.Fatalf("C11 violated: %s (replay %s)", msg, p)
+	}
+	// the proxy must give the dead connection up (close its end) ...
+	deadline := time.Now().Add(150 * time.Second)
+	for {
+		_ = dead.Conn.SetReadDeadline(time.Now().Add(10 * time.Millisecond))
+		if _, err := dead.Conn.Read(make([]byte, 1)); err != nil && !os.IsTimeout(err) {
+			break
+		}
+		if time.Now().After(deadline) {
+			fail("a peer stopped answering 150 s ago (connection left open): its session is still registered and still a dialable endpoint; calls balanced onto it hang until their deadline instead of failing over")
+		}
+		time.Sleep(500 * time.Millisecond)
+	}
+	// ... re-dial, and serve calls over live sessions
+	if !waitSessions(2, 45*time.Second) {
+		fail(fmt.Sprintf("the dead session was dropped but the pool did not return to 2 sessions within 45 s (%d)", len(mgr.GetMuxConnections())))
+	}
+	ok := 0
+	for i := 0; i < 6; i++ {
+		if by, err := call(); err == nil && by != "s0" {
+			ok++
+		}
+	}
+	if ok < 5 {
+		fail(fmt.Sprintf("after the dead session was replaced only %d of 6 calls were served by a live session", ok))
+	}
+	st.Case(vfshared.Fingerprint("silentpeer"), true, "peer_vanished_silently")
+	st.Sample(map[string]any{"scenario": "one of two peers stops answering, connection stays open"})
 }
